@@ -116,7 +116,7 @@ func capturedWrites(p *Program, fn *ssa.Function, depth int) []capWrite {
 }
 
 func ruleConcurrentCallbackPurity(p *Program, r *Report) {
-	r.Begin("R11a", "purity of callbacks that frozen may run on several goroutines: every function literal the module passes to a concurrent frozen API (Set.Where, Map.Where, Map.Merge, Map.Update, Set.Reduce/Reduce2 — fan-out above 2^17 elements) neither stores to a captured or package variable nor mutates a captured object, unless a lock is held at the store; callback-taking frozen APIs must be in the concurrent or the sequential table", 8)
+	r.Begin("R11a", "purity of callbacks that frozen may run on several goroutines: every function literal the module passes to a concurrent frozen API (Set.Where, Map.Where, Map.Merge, Map.Update, Set.Reduce/Reduce2 — fan-out above 2^17 elements) neither stores to a captured or package variable nor mutates a captured object, unless a lock is held at the store; the same holds for every function value that reaches such a callback through a module wrapper (a function that calls its function-typed parameter from a concurrent callback: GenericSet.Where, positionalRelation.Where, Relation.Where …, inferred to a fixpoint) and for closures defined outside the callback that it calls through captured variables; callback-taking frozen APIs must be in the concurrent or the sequential table", 8)
 	defer r.End()
 	nConc := 0
 	for _, fn := range p.RepoFns {
@@ -170,6 +170,39 @@ func ruleConcurrentCallbackPurity(p *Program, r *Report) {
 				r.Undecided(key, fmt.Sprintf("frozen API %s takes a callback but is in neither the concurrent nor the sequential table", name), ins.Pos())
 			}
 		})
+	}
+	// concurrent wrappers of the module and the callbacks that reach them
+	cc := computeConcClosure(p)
+	var wrappers []string
+	for f, m := range cc.concParams {
+		for i := range m {
+			wrappers = append(wrappers, fmt.Sprintf("%s#%d", FnName(f), i))
+		}
+	}
+	sort.Strings(wrappers)
+	r.Notes = append(r.Notes, fmt.Sprintf("concurrent wrappers (function, parameter index): %v", wrappers))
+	var cfs []*ssa.Function
+	for f := range cc.concFuncs {
+		cfs = append(cfs, f)
+	}
+	sort.Slice(cfs, func(i, j int) bool { return FnName(cfs[i]) < FnName(cfs[j]) })
+	for _, f := range cfs {
+		why := cc.concFuncs[f]
+		if strings.Contains(why, "→frozen.") && !strings.Contains(why, "called from the callback") {
+			continue // literal handed directly to frozen: decided above
+		}
+		r.Fn(FnName(f))
+		key := "concurrent@" + FnName(f)
+		ws := capturedWrites(p, f, 0)
+		for _, w := range ws {
+			r.Viol(key+"#"+strings.ReplaceAll(w.what, " ", "_"), fmt.Sprintf("%s runs on several goroutines at once (%s; frozen fans out for sets of 131072 elements or more) and writes %s without synchronisation: data race", FnName(f), why, w.what), w.ins.Pos())
+		}
+		if len(ws) == 0 {
+			r.OK(key, "writes no shared variable outside a lock ("+why+")", f.Pos())
+		}
+	}
+	if len(wrappers) < 3 {
+		r.Undecided("wrappers", fmt.Sprintf("only %d concurrent wrapper parameters inferred (GenericSet.Where, positionalRelation.Where, Relation.Where confirmed by hand)", len(wrappers)), 0)
 	}
 	if nConc < 3 {
 		r.Undecided("concurrent-sites", fmt.Sprintf("only %d call sites of concurrent frozen APIs found (3 confirmed by hand)", nConc), 0)
